@@ -243,6 +243,7 @@ def main(argv=None):
             "counters": dict(sorted(total.counters.items())),
             "mechanism_coverage": mech_cov,
             "known_findings_observed": {k: total.known[k] for k in sorted(total.known)},
+            "distinct_observed": {k: len(v) for k, v in sorted(total.sets.items())},
             "shards": shard_info,
             "inconclusive": total.inconclusive,
             "verdict": {0: "held", 1: "violated", 2: "inconclusive"}[rc],
